@@ -596,7 +596,7 @@ class Program:
                     callee = self.resolve_expr_static(m, v.func, None, _depth + 1)
                     if isinstance(callee, ClassInfo):
                         return ("instance", callee, v)
-                return ("const", v)
+                return ("const", v, m)
             return ("multi", vals)
         return None
 
